@@ -82,11 +82,21 @@ def main():
     #    must lie inside every enclosure; overrides vs pure TLA+; sabotaged laws are caught; binding
     try:
         from .props import c02
-        if not c02.selftest(quick=True, verbose=not quick):
+        if not c02.selftest(quick=True, nproc=tlc.NCPU, verbose=not quick):
             print("selftest: Reals.tla enclosure self-test FAILED")
             ok = False
     except ImportError as ex:
         print("selftest: WARNING c02 self-test not available: %s" % ex)
+    # 6. the complex enclosures of AccuracyC.tla (C01): same kind of soundness self-test (the with/without Java
+    #    overrides comparison is done once, on the Reals.tla layer underneath; `python -m harness.props.c01
+    #    --selftest --full` repeats it for the complex layer)
+    try:
+        from .props import c01
+        if hasattr(c01, "selftest") and not c01.selftest(quick=True, nproc=tlc.NCPU, verbose=not quick, n=40, overrides_diff=False):
+            print("selftest: AccuracyC.tla enclosure self-test FAILED")
+            ok = False
+    except ImportError as ex:
+        print("selftest: WARNING c01 self-test not available: %s" % ex)
     print("selftest: %s" % ("ok" if ok else "FAILED"))
     sys.exit(0 if ok else 2)
 
